@@ -34,6 +34,9 @@ def run(ctx, rep) -> None:
     _family.model_check(rep, ['nodoors', 'restart'] + ([] if ctx.quick else ['finalizer']) + ['live'],
                         {'neg_f8': 'FinalStateSeen', 'neg_f20': 'Witness_F20', 'neg_f21': 'Witness_F21', 'neg_f22': 'Witness_F22'}, ctx)
     scs = crafted() + H.gen_scenarios(ctx.seed, 150 if ctx.quick else 3000, 'converge')
+    # histories with late echoes of the own patch and with deletions under foreign finalizers run to quiescence, too
+    scs += H.gen_scenarios(ctx.seed, 40 if ctx.quick else 1500, 'consistency') + H.gen_scenarios(ctx.seed, 40 if ctx.quick else 1500, 'finalizer')
+    scs += [sc_ for sc_ in H.gen_scenarios(0, 1600, 'finalizer') if sc_['id'] == 'finalizer-0-1507']        # the history in which F31 was found
     traces, verdicts = _family.run_traces(rep, scs, 'converge', nontrivial=lambda f: bool(f & FEATURES))
     tail = 0
     for t in traces:
